@@ -35,7 +35,8 @@ API (all deterministic given the ``random.Random`` passed in):
     shape_problems(raw, want_canonical=True) -> [str]   the RFC 9171 structure as plain ``cbor2.loads`` reads it
     encode_admin(rec) -> bytes / decode_admin(data) -> rec
     crc_ok(spec) -> {block_num: bool}          CRC check over the octets the independent encoder emits
-    build_real(spec, via_payload=False, update_crc=False) -> bp.encoding.Bundle     (imports /repo lazily)
+    build_real(spec, via_payload=False, update_crc=False, time_as='int') -> bp.encoding.Bundle   (imports /repo lazily)
+    dtn_datetime(ms) / dtn_ms(datetime) / time_value(ms, 'int'|'datetime'|'iso') / gen_time_sweep()   exact DTN time helpers
     spec_of_real(bundle) -> spec               field values of a real (decoded) Bundle object
     coq_bundle(spec) -> str                    Coq term of type Model.Bundle.bundle
     coq_status_report(rec) -> str              Coq term of type Model.Bundle.status_report
@@ -78,6 +79,54 @@ REASONS_RFC9171 = list(range(0, 12))
 REASONS_RFC9172 = list(range(12, 17))
 
 CRC_LEN = {1: 2, 2: 4}
+
+
+# --------------------------------------------------------------------------- DTN time <-> datetime, integers only
+
+import datetime as _dt
+
+DTN_EPOCH = _dt.datetime(2000, 1, 1, tzinfo=_dt.timezone.utc)
+# largest DTN time (ms) a datetime can hold; timedelta // timedelta is exact integer arithmetic
+MAX_DATETIME_MS = (_dt.datetime.max.replace(tzinfo=_dt.timezone.utc) - DTN_EPOCH) // _dt.timedelta(milliseconds=1)
+
+
+def dtn_datetime(ms):
+    """ The instant ``ms`` milliseconds after the DTN epoch (RFC 9171 section 4.2.6), by integer arithmetic. """
+    (secs, rem) = divmod(int(ms), 1000)
+    (days, secs) = divmod(secs, 86400)
+    return DTN_EPOCH + _dt.timedelta(days=days, seconds=secs, microseconds=rem * 1000)
+
+
+def dtn_ms(when):
+    """ Exact integer milliseconds since the DTN epoch of an aware datetime (floor). """
+    return (when - DTN_EPOCH) // _dt.timedelta(milliseconds=1)
+
+
+def time_value(ms, time_as):
+    """ How a DTN time is handed to the implementation: the integer, an aware ``datetime`` or ISO text (both
+    accepted by ``DtnTimeField.any2i``).  Instants a datetime cannot hold stay integers. """
+    if time_as == 'int' or not 0 <= ms <= MAX_DATETIME_MS:
+        return ms
+    when = dtn_datetime(ms)
+    assert dtn_ms(when) == ms
+    if time_as == 'datetime':
+        return when
+    return when.replace(tzinfo=None).isoformat(timespec='milliseconds')
+
+
+def gen_time_sweep(offsets=(-2, -1, 0, 1, 2, 3, 4, 5, 6, 7, 8, 9), kmax=45):
+    """ Deterministic ms instants around every power of two of BOTH milliseconds and seconds since 2000
+    (binary floating point conversions go wrong just above 2^k seconds, where ms needs k+10 bits). """
+    out = []
+    seen = set()
+    for k in range(kmax + 1):
+        for centre in (2 ** k, 2 ** k * 1000):
+            for off in offsets:
+                val = centre + off
+                if val >= 0 and val not in seen:
+                    seen.add(val)
+                    out.append(val)
+    return out
 
 
 # --------------------------------------------------------------------------- independent CRCs (bitwise)
@@ -612,7 +661,7 @@ def shape_problems(raw, want_canonical=True):
 
 # --------------------------------------------------------------------------- real objects (lazy /repo import)
 
-def _real_payload(view):
+def _real_payload(view, time_as='int'):
     import bp.encoding as enc
     from scapy_cbor.packets import CborItem
     kind = view['kind']
@@ -629,9 +678,9 @@ def _real_payload(view):
         names = ('received', 'forwarded', 'delivered', 'deleted')
         infos = {}
         for (name, (flag, when)) in zip(names, rec['status']):
-            infos[name] = enc.StatusInfo(status=flag, at=when) if when is not None else enc.StatusInfo(status=flag)
+            infos[name] = enc.StatusInfo(status=flag, at=time_value(when, time_as)) if when is not None else enc.StatusInfo(status=flag)
         kwargs = dict(status=enc.StatusInfoArray(**infos), reason_code=rec['reason'], subj_source=rec['src'],
-                      subj_ts=enc.Timestamp(dtntime=rec['time'], seqno=rec['seq']))
+                      subj_ts=enc.Timestamp(dtntime=time_value(rec['time'], time_as), seqno=rec['seq']))
         if rec['frag_off'] is not None:
             kwargs['fragment_offset'] = rec['frag_off']
         if rec['pay_len'] is not None:
@@ -640,19 +689,21 @@ def _real_payload(view):
     return None
 
 
-def build_real(spec, via_payload=False, update_crc=False):
+def build_real(spec, via_payload=False, update_crc=False, time_as='int'):
     ''' The real ``bp.encoding.Bundle`` for a spec.
 
     :param via_payload: give typed blocks (previous node, age, hop count, administrative record) as scapy
         payload objects instead of BTSD octets (exercises ``ensure_block_type_specific_data`` and the
         administrative-record path of ``Bundle``).
+    :param time_as: 'int' | 'datetime' | 'iso' - how DTN times (creation time, status times, subject time) are
+        given to the implementation (``time_value``); exercises ``DtnTimeField.datetime_to_dtntime``.
     :param update_crc: leave the CRC fields unset and let the implementation's ``update_all_crc`` fill them;
         otherwise the CRC octets of the spec are given as field values.
     '''
     import bp.encoding as enc
     pri = dict(bp_version=spec['version'], bundle_flags=spec['flags'], crc_type=spec['crc_type'],
                destination=spec['dest'], source=spec['src'], report_to=spec['report_to'],
-               create_ts=enc.Timestamp(dtntime=spec['time'], seqno=spec['seq']), lifetime=spec['lifetime'])
+               create_ts=enc.Timestamp(dtntime=time_value(spec['time'], time_as), seqno=spec['seq']), lifetime=spec['lifetime'])
     if spec['frag'] is not None:
         pri.update(fragment_offset=spec['frag'][0], total_app_data_len=spec['frag'][1])
     if spec['crc'] is not None and not update_crc:
@@ -662,7 +713,7 @@ def build_real(spec, via_payload=False, update_crc=False):
         kwargs = dict(type_code=blk['type'], block_num=blk['num'], block_flags=blk['flags'], crc_type=blk['crc_type'])
         if blk['crc'] is not None and not update_crc:
             kwargs['crc_value'] = bytes.fromhex(blk['crc'])
-        pay = _real_payload(blk.get('view') or dict(kind='raw')) if via_payload else None
+        pay = _real_payload(blk.get('view') or dict(kind='raw'), time_as) if via_payload else None
         if pay is None:
             kwargs['btsd'] = bytes.fromhex(blk['data'])
             blocks.append(enc.CanonicalBlock(**kwargs))
